@@ -18,7 +18,9 @@ IMG_SERVER(s)
 static const char *PROP = "C03";
 static int is03, is04, thorough;
 static const char *DOM = "t.example.com";
-static const char *PW = "sesame";
+/* a pass phrase with two non-ASCII (UTF-8) characters: bytes >= 0x80 next to ordinary ones (seeded C03-h: password words assembled
+ * from signed chars, so that such a byte shadows the bytes before it in its word) */
+static const char *PW = "se\xc3\x9f" "am-f\xc3\xbc" "r";
 static unsigned char pw32[33];
 #define NS 5                     /* /29: five session slots */
 #define QT 10                    /* NULL queries: answers carry the payload verbatim */
@@ -27,7 +29,7 @@ enum { K_LETTERS, K_PRIV, K_SPOOF, K_ROUTE, K_VACK, K_REFUSED, K_LOGINS, K_TUNW,
 
 /* ---------------------------------------------------------------- alphabet */
 enum { L_V, L_VBAD, L_LOGIN, L_I, L_S, L_O, L_N, L_R, L_P, L_DATA, L_RAWLOGIN, L_RAWDATA, L_RAWPING, L_Z, L_TUN, L_TIME, L_REPLAY };
-enum { HK_CUR, HK_PREV, HK_OTHER, HK_PLUS1, HK_WRONG, HK_SHORT, HK_LASTONLY, HK_FIRSTONLY, HK_ALLBUTLAST, HK_ALLBUTFIRST, HK_WRONG17, HK_WRONG18, HK_TONUL };
+enum { HK_CUR, HK_PREV, HK_OTHER, HK_PLUS1, HK_WRONG, HK_SHORT, HK_LASTONLY, HK_FIRSTONLY, HK_ALLBUTLAST, HK_ALLBUTFIRST, HK_WRONG17, HK_WRONG18, HK_TONUL, HK_OTHERPW };
 enum { RK_PLUS1, RK_PLAIN, RK_WRONG, RK_LASTONLY, RK_ALLBUTLAST, RK_TONUL };
 enum { SRC_A, SRC_B, SRC_C6, NSRC };
 typedef struct letter { int kind, src, u, arg; char name[48]; } letter;
@@ -59,7 +61,7 @@ static uint32_t tun_of_slot[16], srv_tun_ip = 0x0A000001u;    /* read from the s
 
 static void mk_alphabet(void)
 {
-	static const char *HKN[] = { "cur", "prev", "other", "cur+1", "wrong", "short", "only-last-byte-right", "only-first-byte-right", "all-but-last-byte-right", "all-but-first-byte-right", "wrong,17-bytes", "wrong,18-bytes", "right-up-to-its-first-zero-byte" };
+	static const char *HKN[] = { "cur", "prev", "other", "cur+1", "wrong", "short", "only-last-byte-right", "only-first-byte-right", "all-but-last-byte-right", "all-but-first-byte-right", "wrong,17-bytes", "wrong,18-bytes", "right-up-to-its-first-zero-byte", "for-a-password-differing-in-its-first-two-bytes" };
 	static const char *RKN[] = { "cur+1", "cur", "wrong", "only-last-byte-right", "all-but-last-byte-right", "right-up-to-its-first-zero-byte" };
 	for (int s = 0; s < 2; s++) addl(L_V, s, -1, 0, "V(%s)", SRCN[s]);
 	if (is03) addl(L_VBAD, SRC_A, -1, 0, "Vbad(A)");
@@ -71,6 +73,7 @@ static void mk_alphabet(void)
 		if (is03) for (int hk = HK_LASTONLY; hk <= HK_ALLBUTFIRST; hk++) addl(L_LOGIN, s, u, hk, "L(%s,u%d,%s)", SRCN[s], u, HKN[hk]);
 		/* ... or only up to the first zero byte of the expected response (the forced first challenge yields one, see CH_BASE) */
 		if (is03 && s == 0) addl(L_LOGIN, s, u, HK_TONUL, "L(%s,u%d,%s)", SRCN[s], u, HKN[HK_TONUL]);
+		if (is03 && s == 0) addl(L_LOGIN, s, u, HK_OTHERPW, "L(%s,u%d,%s)", SRCN[s], u, HKN[HK_OTHERPW]);
 	}
 	if (is03) {
 		addl(L_LOGIN, SRC_A, 5, HK_WRONG, "L(A,u5,wrong)");
@@ -253,6 +256,7 @@ static int apply(int li)
 		case HK_FIRSTONLY: { uint8_t r[16]; impl_login(pw32, ch, r); memset(h, 0x5a, 16); h[0] = r[0]; if (h[15] == r[15]) h[15] ^= 1; break; }
 		case HK_ALLBUTLAST: impl_login(pw32, ch, h); h[15] ^= 0x01; break;
 		case HK_ALLBUTFIRST: impl_login(pw32, ch, h); h[0] ^= 0x80; break;
+		case HK_OTHERPW: { unsigned char o[33]; memcpy(o, pw32, 33); o[0] = 'Z'; o[1] = 'z'; impl_login(o, ch, h); break; }     /* another password, right challenge */
 		case HK_TONUL: { impl_login(pw32, ch, h); int j = (int)((uint8_t *)memchr(h, 0, 15) - h); for (int k = j + 1; k < 16; k++) h[k] ^= 0x5a; break; }
 		default: memset(h, 0x5a, 16); break;
 		}
